@@ -818,3 +818,67 @@ type RevokedTx struct {
 	Height uint64
 	Tx     *wire.MsgTx
 }
+
+// DoFault exercises one state-machine call of the property "nothing is
+// handed out unless it is durable": the acting side's database refuses all
+// writes during the call. The call must return an error and hand out no
+// message. Afterwards the in-memory channel object is unusable (lnd fails the
+// link); the caller cuts the connection so both sides reload.
+//
+//	faultSign x:    x.SignNextCommitment with x's DB failing
+//	faultRevoke x:  the peer of x receives x's commit_sig, then its
+//	                RevokeCurrentCommitment runs with its DB failing
+//	faultRecvRev x: the peer of x receives x's revoke_and_ack with its DB
+//	                failing
+func (s *Sim) DoFault(kind string, x int) error {
+	y := 1 - x
+	switch kind {
+	case "faultSign":
+		side := s.Sides[x]
+		side.Fault.Arm()
+		st, err := side.Chan.SignNextCommitment(ctxb)
+		side.Fault.Disarm()
+		if err == nil {
+			return violationf("%s handed out a commitment signature "+
+				"(%d htlc sigs) although the pending commitment "+
+				"could not be made durable", side.Name,
+				len(st.HtlcSigs))
+		}
+		s.label("fault_sign")
+		s.tracef("%s sign with failing DB: %v", side.Name, err)
+
+	case "faultRevoke":
+		if err := s.DoDeliver(x, true); err != nil {
+			return err
+		}
+		if s.Aborted != "" {
+			return nil
+		}
+		side := s.Sides[y]
+		side.Fault.Arm()
+		rev, _, _, err := side.Chan.RevokeCurrentCommitment()
+		side.Fault.Disarm()
+		if err == nil || rev != nil {
+			return violationf("%s handed out the revocation of its "+
+				"commitment although the new commitment could not "+
+				"be made durable (err=%v)", side.Name, err)
+		}
+		s.label("fault_revoke")
+		s.tracef("%s revoke with failing DB: %v", side.Name, err)
+
+	case "faultRecvRev":
+		msg := s.Q[x][0].(*lnwire.RevokeAndAck)
+		s.Q[x] = s.Q[x][1:]
+		side := s.Sides[y]
+		side.Fault.Arm()
+		_, _, err := side.Chan.ReceiveRevocation(msg)
+		side.Fault.Disarm()
+		if err == nil {
+			return violationf("%s accepted a revocation although it "+
+				"could not persist it", side.Name)
+		}
+		s.label("fault_recv_revocation")
+		s.tracef("%s recv revoke with failing DB: %v", side.Name, err)
+	}
+	return nil
+}
